@@ -102,7 +102,10 @@ def run_property(prop, ctx, only=None):
             tb = traceback.format_exc().strip().split("\n")
             rs = [ctx.err(obl, "internal error %s: %s @ %s" % (type(e).__name__, e, tb[-3].strip() if len(tb) > 2 else ""))]
         floor = getattr(mod, "FLOORS", {}).get(obl)
-        if floor and len([r for r in rs if r.status != "error"]) < floor and not any(r.status in ("error", "violation") for r in rs):
+        # the floor guards the structural reading against matching nothing; an instance decided by the whole-function cells it deferred to
+        # (rl.defer) was not read structurally, and the cells carry their own floor
+        if floor and len([r for r in rs if r.status != "error"]) < floor and not any(r.status in ("error", "violation") for r in rs) \
+                and not any("structural_reading" in (r.detail or {}) for r in rs):
             rs.append(ctx.err(obl, "instance count %d below the confirmed floor %d" % (len(rs), floor)))
         results.extend(rs)
     return mod, results
